@@ -149,7 +149,10 @@ func c11FetchCase(line string) string {
 	tr := &Track{trackType: "video", inTrak: trak, timeScale: 1000, trackID: 1}
 	seg.tracks = []*Track{tr}
 
-	full := func() (res string) {
+	if c11CaseNr++; c11CaseNr%2 == 1 {
+		c11Warm(stbl)
+	}
+	fullF := func() (res string) {
 		defer func() {
 			if r := recover(); r != nil {
 				res = "panic"
@@ -167,8 +170,9 @@ func c11FetchCase(line string) string {
 			p[i] = fmt.Sprintf("%d.%d.%d.%d.%d.%s", s.Flags, s.Dur, s.Size, s.CompositionTimeOffset, s.DecodeTime, c11Hex(s.Data))
 		}
 		return "ok:" + strings.Join(p, ";")
-	}()
-	meta := func() (res string) {
+	}
+	full := fullF()
+	metaF := func() (res string) {
 		defer func() {
 			if r := recover(); r != nil {
 				res = "panic"
@@ -186,7 +190,8 @@ func c11FetchCase(line string) string {
 			p[i] = fmt.Sprintf("%d.%d.%d.%d", s.Flags, s.Dur, s.Size, s.CompositionTimeOffset)
 		}
 		return "ok:" + strings.Join(p, ";")
-	}()
+	}
+	meta := metaF()
 	cp := func() (res string) {
 		defer func() {
 			if r := recover(); r != nil {
@@ -208,5 +213,9 @@ func c11FetchCase(line string) string {
 		}()
 		return fmt.Sprintf("ok:%d", TranslateSampleFlagsForFragment(stbl, a))
 	}()
+	// hidden state: asked a second time on the same boxes, in the other order, the answers are the same
+	if meta2, full2 := metaF(), fullF(); meta2 != meta || full2 != full {
+		return line + "\thidden-state:" + full + ":second-call:" + full2 + "\thidden-state:" + meta + ":second-call:" + meta2 + "\t" + cp + "\t" + fl
+	}
 	return line + "\t" + full + "\t" + meta + "\t" + cp + "\t" + fl
 }
